@@ -35,6 +35,9 @@ pub struct SqlScenario {
     pub weight: u64,
     /// C31: the scans accept pushed-down filters and dynamic filter pushdown is forced on
     pub dynamic_filters: bool,
+    /// C18/C05: non-equi joins with a single probe partition and a left side of many small
+    /// batches under small limits (the multi-chunk spill fallback of NestedLoopJoinExec)
+    pub nlj_focus: bool,
 }
 
 fn gen_table(rng: &mut Rng, tier: Tier, small: bool) -> Value {
@@ -82,9 +85,18 @@ impl Scenario for SqlScenario {
                 guard += 1;
             }
         }
+        if self.nlj_focus {
+            q = json!({"t": "nlj", "jt": *rng.pick(&["inner", "left", "right", "full", "semi", "anti", "rsemi", "ranti"])});
+        }
         let small = matches!(q["t"].as_str().unwrap_or(""), "cross" | "nlj");
         let mut a = gen_table(rng, tier, small);
         let mut b = gen_table(rng, tier, small);
+        if self.nlj_focus {
+            let many = TableGen { parts: (1, 2), batches: (2, 6), rows: (1, 3), key_domain: 4, pending_pct: 10, delay_pct: 0, ..Default::default() };
+            a = json!({"parts": many.generate(rng), "sorted": false});
+            let one = TableGen { parts: (1, 1), batches: (1, 3), rows: (0, 4), key_domain: 4, ..Default::default() };
+            b = json!({"parts": one.generate(rng), "sorted": false});
+        }
         let pressure = matches!(self.mode, Mode::Pressure) || (self.mode != Mode::Fault && rng.chance(1, 3));
         let mut env = EnvSpec::generate(rng, pressure);
         if self.mode == Mode::Pressure && env["pool"]["kind"] == json!("unbounded") {
@@ -109,6 +121,10 @@ impl Scenario for SqlScenario {
             _ => {}
         }
         let mut knobs = sqlsim::generate_cfg(rng);
+        if self.nlj_focus {
+            knobs["datafusion.execution.target_partitions"] = json!(1);
+            env["pool"] = json!({"kind": *rng.pick(&["greedy", "fair"]), "limit": *rng.pick(&[0u64, 50, 100, 200, 400, 800, 3000]), "neighbour": []});
+        }
         if self.dynamic_filters {
             // memory pressure is not C31's subject (and would only re-find the NLJ fallback findings)
             env["pool"] = json!({"kind": "unbounded", "limit": 0, "neighbour": []});
